@@ -500,6 +500,53 @@ def c_history(ctx, case):
 # }}}
 
 
+class Opaque:
+    """a user constant with identity equality and identity hash: every copy is a NEW value"""
+
+    def __reduce__(self):
+        return (Opaque, ())
+
+
+@check("C01.copyhash")
+def c_copyhash(ctx, case):
+    """Hash look-ups interleaved with copies: whatever was cached on the original, a copy is
+    == to, and hashes like, a freshly built node with the copy's own fields -- also when a leaf
+    changes its hash in the copy (identity-hashed payloads; strings in another process: C17)."""
+    import copy
+    import pickle
+    e, hash_first = case
+    p.register_constant_class(Opaque)
+    try:
+        w = p.Call(p.Variable("f"), (Opaque(), e))
+        if hash_first:
+            hash(w)
+            {w: 1}                  # noqa: B018
+        for how, cp in (("deepcopy", copy.deepcopy), ("copy", copy.copy),
+                        ("pickle", lambda o: pickle.loads(pickle.dumps(o)))):
+            ctx.case(None)
+            ctx.count("copies_checked")
+            try:
+                c = cp(w)
+                fresh = type(c)(*[getattr(c, f.name) for f in dataclasses.fields(c)])
+                ok_hash, ok_eq = hash(c) == hash(fresh), (c == fresh and fresh == c)
+                ok_key = {c: 1}.get(fresh) == 1 and {fresh: 1}.get(c) == 1
+            except RecursionError:
+                raise
+            except Exception as ex:  # noqa: BLE001
+                ctx.fail("C01.copyhash", case, f"{how}:raised:{type(ex).__name__}",
+                         f"{how} of {G.src(e)} inside a call with an opaque constant: {ex}")
+                continue
+            if not (ok_hash and ok_eq and ok_key):
+                ctx.fail("C01.copyhash", case,
+                         f"{how}:{'hash' if not ok_hash else 'eq' if not ok_eq else 'key'}:"
+                         f"{'hashed-first' if hash_first else 'unhashed'}",
+                         f"{how} of a node{' hashed before' if hash_first else ''}: the copy and a "
+                         f"fresh node with the copy's own fields: hash equal {ok_hash}, == {ok_eq}, "
+                         f"same dict key {ok_key}; tree {G.src(e)}")
+    finally:
+        p.unregister_constant_class(Opaque)
+
+
 def workload(ctx):
     rng = ctx.rng
     npools = ctx.per_shard(ctx.pick(8, 96))
@@ -521,6 +568,13 @@ def workload(ctx):
                 ctx.run("C01.foreign", (a, other))
         for a in objs:
             ctx.run("C01.immutable", a)
+        for a in rng.sample(objs, 12):
+            if normal.is_expr_dataclass(type(a)):
+                try:
+                    hash(a)
+                except TypeError:
+                    continue
+                ctx.run("C01.copyhash", (a, rng.random() < 0.7))
     nh = ctx.per_shard(ctx.pick(40, 800))
     for k in range(nh):
         case = (rng.randrange(10**9), ctx.pick(200, 300))
@@ -532,6 +586,7 @@ def workload(ctx):
     ctx.floor("unequal_pairs", 10000)
     ctx.floor("mutation_attempts", 1000)
     ctx.floor("history_ops", 5000)
+    ctx.floor("copies_checked", 100)
     ctx.floor("pool:field", 100)
     ctx.floor("pool:collision", 100)
     ctx.floor("hash_collisions_unequal", 100)
